@@ -48,7 +48,7 @@ var c09PanicExceptions = map[string]string{
 var c09IndexExceptions = map[string]string{}
 
 func checkC09(w *World, r *Report) {
-	r.Explanation = "Structural clause of C09: over every module function reachable (repaired VTA call graph) from CheckTx, DeliverTx and Query — and from BeginBlock and EndBlock, which later process what accepted transactions stored —, (P-1) no explicit panic, always-panicking callee or Must* helper is reachable except a listed construct with its invariant; (P-2) every payload type assertion without comma-ok sits where the set of possible transaction types (dataflow over the tx-type tests, interprocedural) maps only to the payload type that Trx.fromProto allocates; (P-3) every slice/index expression on a slice whose bounds are not compile-time safe has a dominating length guard or clamp idiom; (P-4) results of module functions that return nil together with an error / may return nil are not dereferenced where the error is known non-nil or without a nil test; (P-5) every integer division by a non-constant has a dominating non-zero guard or a listed invariant; (P-7) every string stored in a ledger item (protobuf `string` fields must be valid UTF-8 or the encoder fails and Commit halts the node) originates from constants, fields or transaction text handed on unchanged — not from a conversion of bytes or a library routine that can yield arbitrary bytes; (P-6) every pointer-typed field of Trx / a payload type that the input paths dereference without a nil test is set non-nil on every success path of every function on the input paths that allocates such an object (directly or through a decoder call that establishes it, interprocedurally); (P-8) a pointer-typed controller field that start-up (constructor, and Info for the application) leaves nil and block execution creates is not dereferenced, without a nil test of the field, at a point that can run in a CheckTx or Query context (such a request can arrive after a restart and before the first BeginBlock); (P-9) an object filled by decoding request-supplied JSON may have any pointer field nil: what a getter hands back unchanged from such a field is not used as an operand before a nil test (until the object is handed to a module function, which may complete it)."
+	r.Explanation = "Structural clause of C09: over every module function reachable (repaired VTA call graph) from CheckTx, DeliverTx and Query — and from BeginBlock and EndBlock, which later process what accepted transactions stored —, (P-1) no explicit panic, always-panicking callee or Must* helper is reachable except a listed construct with its invariant; (P-2) every payload type assertion without comma-ok sits where the set of possible transaction types (dataflow over the tx-type tests, interprocedural) maps only to the payload type that Trx.fromProto allocates; (P-3) every slice/index expression on a slice whose bounds are not compile-time safe has a dominating length guard or clamp idiom; (P-4) results of module functions that return nil together with an error / may return nil are not dereferenced where the error is known non-nil or without a nil test; (P-5) every integer division by a non-constant has a dominating non-zero guard or a listed invariant; (P-7) every string stored in a ledger item (protobuf `string` fields must be valid UTF-8 or the encoder fails and Commit halts the node) originates from constants, fields or transaction text handed on unchanged — not from a conversion of bytes or a library routine that can yield arbitrary bytes; (P-6) every pointer-typed field of Trx / a payload type that the input paths dereference without a nil test is set non-nil on every success path of every function on the input paths that allocates such an object (directly or through a decoder call that establishes it, interprocedurally); (P-8) a pointer-typed controller field that start-up (constructor, and Info for the application) leaves nil and block execution creates is not dereferenced, without a nil test of the field, at a point that can run in a CheckTx or Query context (such a request can arrive after a restart and before the first BeginBlock); (P-9) an object filled by decoding request-supplied JSON may have any pointer field nil: what a getter hands back unchanged from such a field is not used as an operand before a nil test (until the object is handed to a module function, which may complete it). P-7 also requires that no value handed to a JSON marshaller in the state packages carries a json.RawMessage (the marshaller rejects bytes that are not JSON, and an item that can not be encoded stops Commit)."
 	r.NotCovered = "whether an error a controller returns from BeginBlock/EndBlock (which RigoApp turns into a deliberate fail-stop panic) can be provoked by stored transaction data; panics inside dependencies on hostile input (protobuf, rlp, iavl, go-ethereum, tendermint rpc core used by vm_call); resource exhaustion; nil dereferences of struct fields other than those of the decoded request objects (P-6) that are nil by construction rather than by a returned nil; guards whose removal cannot cause a panic (address/hash length checks: every consumer clamps) are deliberately not obligations."
 
 	roots := w.entrySet("CheckTx", "DeliverTx", "Query", "BeginBlock", "EndBlock")
@@ -70,6 +70,7 @@ func checkC09(w *World, r *Report) {
 	p5(w, r, reach, scope)
 	p6(w, r, reach, scope)
 	p7(w, r, scope)
+	p7raw(w, r)
 	p8(w, r)
 	p9(w, r, scope)
 
@@ -2257,4 +2258,65 @@ func p9(w *World, r *Report, scope []*ssa.Function) {
 			r.Check(bad == "", "P-9", key, fmt.Sprintf("what getters hand back from the possibly incomplete object is tested before use (%d use(s))", nUse), "a field the request may have left out is used unchecked: "+bad+" (a partial parameter set is a supported input shape, so the sender decides whether this is nil)", site(w, c))
 		}
 	}
+}
+
+// p7raw — a json.RawMessage inside a value handed to a JSON marshaller is
+// validated by the marshaller: bytes that are not JSON make it fail. In the
+// encoder of a ledger item that failure surfaces in Commit, which panics. Items
+// carry transaction text that is only partly validated (proposal options of the
+// non-parameter kinds are free bytes), so no encoder of the state packages may
+// hand raw message fields to the marshaller.
+func p7raw(w *World, r *Report) {
+	var hasRaw func(t types.Type, d int, seen map[types.Type]bool) string
+	hasRaw = func(t types.Type, d int, seen map[types.Type]bool) string {
+		if t == nil || d > 5 || seen[t] {
+			return ""
+		}
+		seen[t] = true
+		if n, ok := t.(*types.Named); ok {
+			if n.Obj().Name() == "RawMessage" && n.Obj().Pkg() != nil && strings.HasSuffix(n.Obj().Pkg().Path(), "json") {
+				return n.Obj().Pkg().Name() + ".RawMessage"
+			}
+		}
+		switch u := t.Underlying().(type) {
+		case *types.Pointer:
+			return hasRaw(u.Elem(), d+1, seen)
+		case *types.Slice:
+			return hasRaw(u.Elem(), d+1, seen)
+		case *types.Array:
+			return hasRaw(u.Elem(), d+1, seen)
+		case *types.Map:
+			return hasRaw(u.Elem(), d+1, seen)
+		case *types.Struct:
+			for i := 0; i < u.NumFields(); i++ {
+				if s := hasRaw(u.Field(i).Type(), d+1, seen); s != "" {
+					return u.Field(i).Name() + " " + s
+				}
+			}
+		}
+		return ""
+	}
+	n := 0
+	for _, fn := range w.nodeFuncs() {
+		pp := w.FuncPkgPath(fn)
+		if !(strings.Contains(pp, "/ctrlers/") || strings.HasSuffix(pp, "/ledger")) {
+			continue
+		}
+		for _, c := range CallsIn(fn) {
+			obj := calleeObj(c.Common())
+			if obj == nil || obj.Pkg() == nil || !strings.HasSuffix(obj.Pkg().Path(), "/json") || !strings.HasPrefix(obj.Name(), "Marshal") || len(c.Common().Args) == 0 {
+				continue
+			}
+			n++
+			if raw := hasRaw(stripConv(c.Common().Args[0]).Type(), 0, map[types.Type]bool{}); raw != "" {
+				r.Violate("P-7", "raw-json:"+w.FName(fn), "the value marshalled here carries a raw JSON message ("+raw+"): the marshaller rejects bytes that are not JSON, the item can not be encoded and the failing Commit halts the node — transaction text reaches ledger items only partly validated", nil, site(w, c))
+			}
+		}
+	}
+	r.Extra["p7_json_marshal_sites"] = n
+	if n < 5 {
+		r.Undecided("P-7", "raw-json", fmt.Sprintf("only %d JSON marshal sites found in the state packages (floor 5)", n))
+		return
+	}
+	r.OK("P-7", "raw-json", fmt.Sprintf("none of the %d values handed to a JSON marshaller in the state packages carries a raw JSON message", n))
 }
